@@ -12,12 +12,68 @@ CHECKS = {'restore', 'frame'}
 KINDS = None   # all violation kinds are C02-relevant when a remaining snapshot is damaged
 
 
+def local_overlap_probe(ctx, rep):
+    """Two snapshot commands that overlap in time may both upload the same new chunk (different ciphertexts of the same
+    plaintext).  On the local backend the stored object must be ENTIRELY one of the two, whatever the interleaving of their
+    writes: forced schedule A piece 1, B piece 1, B piece 2 (B completes), A piece 2 (A completes)."""
+    import io, threading, shutil as _sh
+    from replicat.backends import local as L
+    root = ctx.scratch / 'overlap-local'
+    for trial in range(3):
+        b = L.Local(root / f't{trial}')
+        name = 'data/ab/cd/ef-0123'
+        pa, pb = ctx.rng.randbytes(200), ctx.rng.randbytes(200)
+        first_piece_written = threading.Event()
+        b_done = threading.Event()
+        orig_copy = L.shutil.copyfileobj
+
+        def stepping_copy(src, dst, length=0):
+            who = threading.current_thread().name
+            piece = src.read(100)
+            dst.write(piece)
+            dst.flush()
+            if who == 'uploader-A':
+                first_piece_written.set()
+                b_done.wait(10)
+            dst.write(src.read())
+            dst.flush()
+
+        def up(payload):
+            b.upload_stream(name, io.BytesIO(payload), len(payload), 100)
+
+        L.shutil.copyfileobj = stepping_copy
+        try:
+            ta = threading.Thread(target=up, args=(pa,), name='uploader-A')
+            ta.start()
+            first_piece_written.wait(10)
+            tb = threading.Thread(target=up, args=(pb,), name='uploader-B')
+            tb.start()
+            tb.join(20)
+            b_done.set()
+            ta.join(20)
+        finally:
+            L.shutil.copyfileobj = orig_copy
+        rep.case(('local-overlap', trial), nontrivial=True)
+        stored = b.download(name)
+        if stored not in (pa, pb):
+            rep.violations.append({'what': f'two overlapping uploads of one chunk name left a stored object ({len(stored)} bytes) that is neither upload '
+                                           '(pieces of both interleaved): every snapshot referencing it is unrestorable',
+                                   'signature': {'kind': 'chunk_mixed_by_overlapping_uploads'}, 'replay': {'probe': 'local_overlap'}})
+            break
+        if sorted(b.list_files('')) != [name]:
+            rep.violations.append({'what': f'after two overlapping uploads the listing is {sorted(b.list_files(""))}', 'signature': {'kind': 'chunk_mixed_by_overlapping_uploads'},
+                                   'replay': {'probe': 'local_overlap'}})
+            break
+    _sh.rmtree(root, ignore_errors=True)
+
+
 def _run(ctx, n, nops, rep):
     seeds = [ctx.rng.randint(0, 2 ** 31) for _ in range(n)]
     repo_hist.run_batch(seeds, ctx.scratch, rep, nops=nops, weights=WEIGHTS, checks=CHECKS,
                         concurrent=ctx.rng.choice([1, 2, 3]), delay=0.001)
+    local_overlap_probe(ctx, rep)
     rep.violations[:] = [v for v in rep.violations if v['signature']['kind'] in
-                         ('restore_mismatch', 'referenced_chunk_missing', 'gc_overreach', 'exception', 'unknown_object', 'failed_gc_mutated')]
+                         ('restore_mismatch', 'referenced_chunk_missing', 'gc_overreach', 'exception', 'unknown_object', 'failed_gc_mutated', 'chunk_mixed_by_overlapping_uploads')]
 
 
 def run(ctx) -> Report:
